@@ -347,7 +347,8 @@ func c20RunHistory(sp c20Spec) (out c20Outcome) {
 	m2 := reflect.New(t2).Interface()
 	// --- migrate(v1)
 	if err := db.AutoMigrate(m1); err != nil {
-		return c20Outcome{Stage: "v1-rejected", Err: err.Error()}
+		// the generator only emits models SQLite can hold (exclusion list in c20_gen.go): a refusal is a failure
+		return c20Outcome{Stage: "v1-rejected", Err: err.Error(), Verdict: "AutoMigrate(v1) on an empty database returned an error", Observed: err.Error(), Master: c20Master(db, rec)}
 	}
 	st := &gorm.Statement{DB: db}
 	if err := st.Parse(m1); err != nil {
@@ -357,7 +358,7 @@ func c20RunHistory(sp c20Spec) (out c20Outcome) {
 	// --- insert rows
 	for i := 0; i < sp.Rows; i++ {
 		if err := db.Create(c20Record(t1, sp.V1, i).Interface()).Error; err != nil {
-			return c20Outcome{Stage: "insert-rejected", Err: err.Error()}
+			return c20Outcome{Stage: "insert-rejected", Err: err.Error(), Verdict: "the table AutoMigrate(v1) created rejects a record of the v1 model", Observed: err.Error(), Master: c20Master(db, rec)}
 		}
 	}
 	before, err := c20Dump(db, rec, sp.Table, oldCols)
